@@ -90,9 +90,14 @@ type heldVal struct {
 var heldVals []heldVal
 var canonDepth int
 
+// holdOff: set by harness functions that hold and scribble results themselves (C11's repetition harness)
+var holdOff bool
+
 func canon(v interface{}) string {
 	s := canonRaw(v)
-	heldVals = append(heldVals, heldVal{v, s})
+	if !holdOff {
+		heldVals = append(heldVals, heldVal{v, s})
+	}
 	return s
 }
 
@@ -107,7 +112,9 @@ var heldRenders, prevRenders []heldRender
 
 func held(render func() string) string {
 	s := render()
-	heldRenders = append(heldRenders, heldRender{render, s})
+	if !holdOff {
+		heldRenders = append(heldRenders, heldRender{render, s})
+	}
 	return s
 }
 
